@@ -1056,3 +1056,87 @@ pub fn mutate_frag(rng: &mut Rng, f: &mut Frag, fresh_key: KeyRef) -> Option<&'s
     }
     None
 }
+
+// --------------------------------------------------------------------------
+// Sugared spelling (pk, pkh, t:, l:, u:, and_n) of the same tree.
+
+impl Frag {
+    fn sugar_wrapper(&self) -> Option<(char, &Frag)> {
+        match self {
+            Frag::Check(x) if matches!(**x, Frag::PkK(_) | Frag::PkH(_)) => None,
+            Frag::Alt(x) => Some(('a', x)),
+            Frag::Swap(x) => Some(('s', x)),
+            Frag::Check(x) => Some(('c', x)),
+            Frag::DupIf(x) => Some(('d', x)),
+            Frag::Verify(x) => Some(('v', x)),
+            Frag::NonZero(x) => Some(('j', x)),
+            Frag::ZeroNotEqual(x) => Some(('n', x)),
+            Frag::AndV(x, t) if **t == Frag::True => Some(('t', x)),
+            Frag::OrI(z, x) if **z == Frag::False => Some(('l', x)),
+            Frag::OrI(x, z) if **z == Frag::False => Some(('u', x)),
+            _ => None,
+        }
+    }
+
+    pub fn to_string_sugared(&self, nm: &dyn Names) -> String {
+        let mut s = String::new();
+        self.fmt_sugar(nm, &mut s);
+        s
+    }
+
+    fn fmt_sugar(&self, nm: &dyn Names, s: &mut String) {
+        if let Some((ch, x)) = self.sugar_wrapper() {
+            s.push(ch);
+            if x.sugar_wrapper().is_none() {
+                s.push(':');
+            }
+            x.fmt_sugar(nm, s);
+            return;
+        }
+        match self {
+            Frag::Check(x) => match &**x {
+                Frag::PkK(k) => s.push_str(&format!("pk({})", nm.key(k))),
+                Frag::PkH(k) => s.push_str(&format!("pkh({})", nm.key(k))),
+                _ => unreachable!(),
+            },
+            Frag::AndOr(a, b, c) if **c == Frag::False => {
+                s.push_str("and_n(");
+                a.fmt_sugar(nm, s);
+                s.push(',');
+                b.fmt_sugar(nm, s);
+                s.push(')');
+            }
+            Frag::AndV(a, b)
+            | Frag::AndB(a, b)
+            | Frag::OrB(a, b)
+            | Frag::OrC(a, b)
+            | Frag::OrD(a, b)
+            | Frag::OrI(a, b) => {
+                s.push_str(self.name());
+                s.push('(');
+                a.fmt_sugar(nm, s);
+                s.push(',');
+                b.fmt_sugar(nm, s);
+                s.push(')');
+            }
+            Frag::AndOr(a, b, c) => {
+                s.push_str("andor(");
+                a.fmt_sugar(nm, s);
+                s.push(',');
+                b.fmt_sugar(nm, s);
+                s.push(',');
+                c.fmt_sugar(nm, s);
+                s.push(')');
+            }
+            Frag::Thresh(k, xs) => {
+                s.push_str(&format!("thresh({}", k));
+                for x in xs {
+                    s.push(',');
+                    x.fmt_sugar(nm, s);
+                }
+                s.push(')');
+            }
+            other => other.fmt_into(nm, s),
+        }
+    }
+}
